@@ -126,10 +126,36 @@ pub fn malformed_params(variant: u32, uri: &str) -> Option<Value> {
     }
 }
 
-/// JSON-RPC ids may be numbers or strings: script requests whose number is divisible by 3 are sent
-/// (and cancelled) under the string id "s<number>"; probes and the handshake use numbers.
+/// JSON-RPC ids may be numbers or strings, and `7` and `"7"` are different ids. Script requests
+/// go out under three representations: the number itself, the string `"s<number>"` (unrelated to
+/// any number), or - the *twin* case - the decimal text of the previous request's number, so that
+/// a numeric id and a string id with the same digits are in flight together. Probes and the
+/// handshake use numbers.
 pub fn string_id(id: i32) -> bool {
-    (100..40_000).contains(&id) && id % 3 == 0
+    !matches!(wire_id(id), Value::Number(_))
+}
+
+pub fn wire_id(id: i32) -> Value {
+    if !(100..40_000).contains(&id) {
+        return Value::from(id);
+    }
+    match id % 6 {
+        0 => Value::from(format!("s{id}")),
+        3 => Value::from(format!("{}", id - 1)),
+        _ => Value::from(id),
+    }
+}
+
+/// The script's request number behind an id as the server echoes it (`Display` of a
+/// `lsp_server::RequestId`: strings are quoted).
+pub fn internal_id(shown: &str) -> Option<i32> {
+    if let Some(inner) = shown.strip_prefix('"').and_then(|x| x.strip_suffix('"')) {
+        if let Some(rest) = inner.strip_prefix('s') {
+            return rest.parse().ok();
+        }
+        return inner.parse::<i32>().ok().map(|n| n + 1);
+    }
+    shown.parse().ok()
 }
 
 pub fn request(id: i32, method: &str, params: Option<Value>) -> lsp_server::Message {
